@@ -20,6 +20,7 @@ INSTRUMENTATION = [
     "T5 loops named by the contract: iterable wrapped in _pyvc.cut(label, iterable, locals-closure); "
     "havoc of the locals the body assigns as first body statement and after the loop",
     "T6 names listed under cuts: `name = _pyvc.opaque('name', name)` inserted after their assignment",
+    "T8 names listed under sym_lists: `name = []` becomes `name = _pyvc.newlist('name')` (a list whose length may be symbolic after a cut loop)",
 ]
 
 _DROP_DECOS = ("njit", "jit", "rawkernel", "vectorize", "guvectorize")
@@ -76,7 +77,8 @@ def _assigned_names(stmts):
 
 
 class _Pass(ast.NodeTransformer):
-    def __init__(self, cut_loops, cuts):
+    def __init__(self, cut_loops, cuts, sym_lists=None):
+        self.sym_lists = sym_lists or {}     # {qualname: [names]}
         self.cut_loops = cut_loops or {}     # {qualname: {ordinal(int, 1-based, source order): label}}
         self.cuts = cuts or {}               # {qualname: [names]}
         self.stack = []
@@ -118,6 +120,16 @@ class _Pass(ast.NodeTransformer):
         return node
 
     visit_AsyncFunctionDef = visit_FunctionDef
+
+    def visit_Assign(self, node):
+        self.generic_visit(node)
+        names = self.sym_lists.get(self.qual())
+        if names and len(node.targets) == 1 and isinstance(node.targets[0], ast.Name) and node.targets[0].id in names \
+                and isinstance(node.value, ast.List) and not node.value.elts:
+            nm = node.targets[0].id
+            node.value = ast.copy_location(ast.parse(f"_pyvc.newlist({nm!r})", mode="eval").body, node.value)
+            self.applied.append(f"T8 {self.qual()}: `{nm} = []` is a symbolic list")
+        return node
 
     def visit_AnnAssign(self, node):
         self.generic_visit(node)
@@ -244,7 +256,7 @@ def read_source(modname, mutate=None):
     return path, src
 
 
-def load(modname, rebind=None, cut_loops=None, cuts=None, mutate=None, vc=None, keep_real_imports=True, pre=None):
+def load(modname, rebind=None, cut_loops=None, cuts=None, mutate=None, vc=None, keep_real_imports=True, pre=None, sym_lists=None):
     """compile the real source of `modname` into a private namespace.
     rebind: {global name: model object} applied AFTER the module body ran (so real imports work)
     cut_loops: {qualname: {ordinal: label}}; cuts: {qualname: [names]}; mutate: [(old, new)] in-memory edits
@@ -253,7 +265,7 @@ def load(modname, rebind=None, cut_loops=None, cuts=None, mutate=None, vc=None, 
         sys.path.insert(0, REPO)
     path, src = read_source(modname, mutate)
     tree = ast.parse(src)
-    p = _Pass(cut_loops, cuts)
+    p = _Pass(cut_loops, cuts, sym_lists)
     tree = ast.fix_missing_locations(p.visit(tree))
     text = ast.unparse(tree)
     pkg = modname.rsplit(".", 1)[0] if "." in modname else modname
